@@ -1398,7 +1398,37 @@ func c19ThirdHunt(ctx *Ctx, r *Report, o *omapInfo, fd *ast.FuncDecl, obj *types
 			return true
 		}
 		r.Count("value comparisons of the ordered map", 1)
-		r.Check(len(c.Args) > 2, "omap/equal-handles-any-value", name+" compares values", c.Pos(), "go-cmp is told what to do with unexported fields",
+		// one of the options is (a variable declared as) a call to an option constructor of go-cmp that speaks of
+		// unexported fields
+		handlesUnexported := false
+		for _, opt := range c.Args[2:] {
+			var call *ast.CallExpr
+			switch x := ast.Unparen(opt).(type) {
+			case *ast.CallExpr:
+				call = x
+			case *ast.Ident:
+				if v, ok := objOf(info, x).(*types.Var); ok {
+					for _, file := range o.pkg.Syntax {
+						ast.Inspect(file, func(k ast.Node) bool {
+							if vs, ok := k.(*ast.ValueSpec); ok && len(vs.Names) == 1 && len(vs.Values) == 1 && info.Defs[vs.Names[0]] == v {
+								call, _ = ast.Unparen(vs.Values[0]).(*ast.CallExpr)
+							}
+							return true
+						})
+					}
+				}
+			}
+			if call == nil {
+				continue
+			}
+			if cf := callee(info, call); cf != nil && cf.Pkg() != nil && strings.Contains(cf.Pkg().Path(), "go-cmp/cmp") {
+				switch cf.Name() {
+				case "Exporter", "AllowUnexported", "IgnoreUnexported":
+					handlesUnexported = true
+				}
+			}
+		}
+		r.Check(handlesUnexported, "omap/equal-handles-any-value", name+" compares values", c.Pos(), "go-cmp is told what to do with unexported fields",
 			name+" calls cmp.Equal without options: for a value type with unexported fields (a struct, a Map held by value) go-cmp panics `cannot handle unexported field` — Equal panics whether the contents are equal or not")
 		// one of the options is a Comparer over an interface that the Map *value* implements (a method with a value
 		// receiver): go-cmp does not find the pointer-receiver Equal on a Map held by value and would compare the
